@@ -18,10 +18,12 @@ def rotate(seq: Sequence[Any], seed: int) -> List[Any]:
 
 def run_explorer(factory: Callable[..., Any], fargs: tuple, units: Sequence[Any], budget: Dict[str, int], seed: int,
                  workers: Optional[int], rule: str, assumptions: List[str], bounds: Dict[str, Any],
-                 time_limit: Optional[float] = None, split: bool = True, describe: Callable[[Any], Any] = repr) -> Dict[str, Any]:
+                 time_limit: Optional[float] = None, split: bool = True, describe: Callable[[Any], Any] = repr,
+                 split_depth: int = 1) -> Dict[str, Any]:
     units = rotate(units, seed)
     deadline = time.time() + time_limit if time_limit else None
-    agg = explore.explore_units(factory, fargs, units, budget, workers=workers, split=split, deadline=deadline)
+    agg = explore.explore_units(factory, fargs, units, budget, workers=workers, split=split, deadline=deadline,
+                                split_depth=split_depth)
     violations = sorted(agg.violations, key=lambda v: (explore.cost_of(v), repr(v.get('unit')), v.get('choices')))
     for v in violations:
         v.pop('_key', None)
